@@ -27,6 +27,7 @@ import (
 	"github.com/bradfitz/gomemcache/memcache"
 	"github.com/eko/gocache/lib/v4/cache"
 	"github.com/eko/gocache/lib/v4/store"
+	"github.com/nuts-foundation/nuts-node/core/verifhook"
 )
 
 var _ SessionStore = (*SessionStoreImpl[[]byte])(nil)
@@ -51,6 +52,7 @@ type SessionStoreImpl[T StringOrBytes] struct {
 }
 
 func (s SessionStoreImpl[T]) Delete(key string) error {
+	verifhook.Point("session.delete", s.db.getFullKey(s.prefixes, key))
 	err := s.underlying.Delete(context.Background(), s.db.getFullKey(s.prefixes, key))
 	if err != nil {
 		if errors.Is(err, store.NotFound{}) || errors.Is(err, memcache.ErrCacheMiss) {
@@ -62,6 +64,7 @@ func (s SessionStoreImpl[T]) Delete(key string) error {
 }
 
 func (s SessionStoreImpl[T]) Exists(key string) bool {
+	verifhook.Point("session.get", s.db.getFullKey(s.prefixes, key))
 	val, err := s.underlying.Get(context.Background(), s.db.getFullKey(s.prefixes, key))
 	if err != nil {
 		return false
@@ -70,6 +73,7 @@ func (s SessionStoreImpl[T]) Exists(key string) bool {
 }
 
 func (s SessionStoreImpl[T]) Get(key string, target interface{}) error {
+	verifhook.Point("session.get", s.db.getFullKey(s.prefixes, key))
 	val, err := s.underlying.Get(context.Background(), s.db.getFullKey(s.prefixes, key))
 	if err != nil {
 		// memcache.ErrCacheMiss is added here since the abstraction layer doesn't map this error to NotFound
@@ -99,12 +103,14 @@ func (s SessionStoreImpl[T]) Put(key string, value interface{}, options ...Sessi
 	if err != nil {
 		return err
 	}
+	verifhook.Point("session.put", s.db.getFullKey(s.prefixes, key))
 	return s.underlying.Set(context.Background(), s.db.getFullKey(s.prefixes, key), T(bytes), store.WithExpiration(opts.ttl))
 }
 func (s SessionStoreImpl[T]) GetAndDelete(key string, target interface{}) error {
 	if err := s.Get(key, target); err != nil {
 		return err
 	}
+	verifhook.Point("session.getdel.between", s.db.getFullKey(s.prefixes, key))
 	return s.underlying.Delete(context.Background(), s.db.getFullKey(s.prefixes, key))
 }
 
